@@ -1291,6 +1291,13 @@ def compare_with_model(rep, case, req, code, answers):
             return
     if kind == "iter":
         val = answers[0][1]
+        ds = case["ds"]
+        if ds.get("blank_records"):
+            # all-empty records are indistinguishable: both sides name such a record by the first one
+            # (the code side is already mapped through index_of of the first cell)
+            val = dict(val, outs=[["value", index_of(ds["rows"][o[1]][0], ds)]
+                                  if o[0] == "value" and isinstance(o[1], int) and 0 <= o[1] < len(ds["rows"]) else o
+                                  for o in val["outs"]])
         if val["outs"] != code["outs"] or val["passes"] != code["passes"]:
             rep.disagreement("c17.iter", case, val, code)
     elif kind == "site":
@@ -1442,6 +1449,12 @@ def gen_count(rng, n):
 def gen_iter_case(rng):
     ds = gen_dataset(rng, safe=False)
     n = len(ds["rows"])
+    if n and rng.random() < 0.2:
+        # records whose every column is empty (a line of separators only / a lone `""`): genuine records, not
+        # padding; the iterator-object oracle compares by position, so no identifying first cell is needed
+        for i in rng.sample(range(n), rng.choice([1, 1, 2, n]) if n > 1 else 1):
+            ds["rows"][i] = ["" if isinstance(c, str) else c for c in ds["rows"][i]]
+        ds["blank_records"] = True
     return {"kind": "iter", "ds": ds, "mode": rng.choice(["linear", "linear", "shuffle"]),
             "repeat": rng.choice([None, None, True, False]), "count": rng.choice([0, gen_count(rng, n), gen_count(rng, n) + 1, 3 * n + 2]),
             "seed": rng.randrange(2**32)}
@@ -1511,6 +1524,12 @@ def fixed_cases():
             for total in sorted({1, n or 1, n + 1, 2 * n or 2}):
                 out.append({"kind": "site", "ds": ds, "dialect": 2 + n % 2, "fn": "iterate", "repeat": repeat, "placement": "top",
                             "p": 1, "q": total, "reps": 1, "cols": ["name", "city"], "sites": 1, "relative": False, "seed": 1})
+        if n >= 2:
+            # all-empty records in the middle and at the end of the file are records like any other
+            dsb = dict(ds, rows=[r if i % 2 == 0 else ["", ""] for i, r in enumerate(ds["rows"])], blank_records=True)
+            for mode in ("linear", "shuffle"):
+                out.append({"kind": "iter", "ds": dsb, "mode": mode, "repeat": None, "count": 2 * n + 1, "seed": 1})
+            out.append({"kind": "iter", "ds": dsb, "mode": "linear", "repeat": False, "count": n + 1, "seed": 1})
         out.append({"kind": "for_each", "ds": ds, "dialect": 3, "fn": "iterate", "repeat": None, "placement": "top", "p": 1,
                     "reps": 2, "cols": ["name", "City"], "seed": 1})
         out.append({"kind": "for_each", "ds": ds, "dialect": 2, "fn": "shuffle", "repeat": True, "placement": "nested", "p": 2,
@@ -1523,7 +1542,7 @@ def fixed_cases():
 def run(ctx, rep, findings):
     rep.rule = (
         "Generated datasets: CSV (n in 0..9, 1-6 columns, minimal/full quoting, BOM, CRLF/LF, multi-line and non-ASCII cells, "
-        "missing final newline) and sqlite tables (text + integer columns, optional decoy table). Kinds: iter (iterator object, "
+        "missing final newline, records whose every column is empty) and sqlite tables (text + integer columns, optional decoy table). Kinds: iter (iterator object, "
         "count calls, arbitrary cells incl. literals that the formula layer would reinterpret), site (recipe: Dataset.iterate/"
         "shuffle field in a top-level / nested / friend template, one or two sites, 1-3 iterations, counts biased to n-1, n, n+1, "
         "multiples of n), for_each (top / nested / friend, declared repeat any), update (1-3 iterations, passthrough fields, path "
